@@ -9,16 +9,20 @@ namespace Babylon.Anyflow.Graph
 variable {p : Params} {s s' : State}
 
 theorem step_envSeal {d : Nat} {x : Option Val} (h : stepEvent p s (.envSeal d x) = some s') :
-    s.sealed d = false ∧ p.inp d = some x ∧ d < p.g.nData ∧
+    s.sealed d = false ∧ (p.inp d = some x ∨ (x = none ∧ s.fin.isSome = true ∧ s.running = true)) ∧ d < p.g.nData ∧
     ((s.running = false ∧ s' = sealData s d x) ∨
-     (s.running = true ∧ d < p.g.nIn ∧ s' = { sealData s d x with lateEnv := true })) := by
+     (s.running = true ∧ p.g.producer d = none ∧ s' = { sealData s d x with lateEnv := true })) := by
   simp only [stepEvent] at h
   split at h
   · cases h
   · rename_i hc
-    simp only [Bool.or_eq_true, Bool.not_eq_true', bne_iff_ne, ne_eq, not_or, Bool.not_eq_true, decide_eq_false_iff_not,
-      Decidable.not_not] at hc
+    simp only [Bool.or_eq_true, Bool.not_eq_true', not_or, Bool.not_eq_true, decide_eq_false_iff_not,
+      Decidable.not_not, Bool.not_eq_false, beq_iff_eq, Bool.and_eq_true, Option.isNone_iff_eq_none] at hc
     obtain ⟨⟨h1, h2⟩, h3⟩ := hc
+    have h2 : p.inp d = some x ∨ (x = none ∧ s.fin.isSome = true ∧ s.running = true) := by
+      rcases h2 with h2 | ⟨⟨a, b⟩, c⟩
+      · exact Or.inl h2
+      · exact Or.inr ⟨a, b, c⟩
     refine ⟨h1, h2, h3, ?_⟩
     split at h
     · rename_i hr
@@ -26,11 +30,11 @@ theorem step_envSeal {d : Nat} {x : Option Val} (h : stepEvent p s (.envSeal d x
     · rename_i hr
       split at h
       · rename_i hn
-        right; exact ⟨by simpa using hr, hn, by simpa using h.symm⟩
+        right; exact ⟨by simpa using hr, by simpa using hn, by simpa using h.symm⟩
       · cases h
 
 theorem step_run (h : stepEvent p s .run = some s') :
-    s.running = false ∧ (∀ d, d < p.g.nData → p.g.nIn ≤ d → p.inp d ≠ none → s.sealed d = true) ∧
+    s.running = false ∧ (∀ d, d < p.g.nData → p.g.producer d ≠ none → p.inp d ≠ none → s.sealed d = true) ∧
     s' = { s with running := true } := by
   simp only [stepEvent] at h
   split at h
@@ -43,7 +47,7 @@ theorem step_run (h : stepEvent p s .run = some s') :
       have := (List.all_eq_true.mp ha) d (List.mem_range.mpr hd)
       simp only [Bool.or_eq_true, decide_eq_true_eq, Option.isNone_iff_eq_none] at this
       rcases this with (h1 | h1) | h1
-      · omega
+      · exact absurd (by simpa using h1) hin
       · exact absurd h1 hne
       · exact h1
     · cases h
